@@ -373,6 +373,16 @@ def fam_c20(tier, seed):
         sc["tags"] = ["pool", "drop-while-held", "linger", "n:%d" % n]
         scs.append(sc)
         k += 1
+    # (b3) the server is dropped while a request is handed out and further requests of the same connection are
+    #      still queued (never received): the drop returns at once, the held request is answered afterwards
+    for nq, other in itertools.product([1, 2], [0, 1]):
+        msgs = [Msg(plan=respond(200, 6, wait_phase=2))] + [Msg() for _ in range(nq)]
+        cc = [conn(msgs, 0)] + [simple_conn(1 + i, 1, at_ns=2 * MS) for i in range(other)]
+        apps = [{"prog": [{"op": "recv", "kind": "recv"}, {"op": "handle", "sel": "all", "mode": "spawn"}]}]
+        sc = scenario("C20-%04d" % k, "C20", cc, apps, horizon_ms=200, single=False, drop_server_early=True, connect_after_drop=2)
+        sc["tags"] = ["pool", "drop-while-held", "queued-behind-held", "queued:%d" % nq]
+        scs.append(sc)
+        k += 1
     # (c) plain drop with idle / open connections
     for n in [0, 1, 4, 6]:
         cc = [simple_conn(c, 1) for c in range(n)]
@@ -465,6 +475,24 @@ def fam_c01(tier, seed, prop="C01"):
 
 def fam_c06(tier, seed):
     scs = fam_c01(tier, seed, prop="C06")
+    # a request whose streamed body the client has only partly sent is dropped / its handler panics / it is
+    # answered without reading: the final response must not wait for the rest of the body
+    k = 0
+    for fin in ("drop", "panic", "respond"):
+        for tag, kw in (("cl5000", dict(framing="cl", body_len=5000)), ("ch2000", dict(framing="chunked", body_len=2000, chunks=[700, 1300])),
+                        ("cl1025", dict(framing="cl", body_len=1025)), ("expect5", dict(framing="cl", body_len=5, expect="100-continue"))):
+            for sent in (0, 3):
+                for pos in (0, 1):
+                    plan = {"drop": drop, "panic": panic, "respond": lambda: respond(200, 4)}[fin]()
+                    last = Msg(method="POST", plan=plan, **kw)
+                    msgs = ([Msg()] if pos == 1 else []) + [last]
+                    d, j, ln = conn(msgs, 0)
+                    he = d["msgs"][pos]["he"]
+                    d["prog"] = [{"op": "send", "to": min(he + sent, ln)}]
+                    sc = scenario("C06-u%03d" % k, "C06", [(d, j, ln)], [serve("recv", "spawn")], horizon_ms=100)
+                    sc["tags"] = ["writer-chain", "unsent-body", fin, tag, "sent:%d" % sent, "pos:%d" % pos]
+                    scs.append(sc)
+                    k += 1
     return scs
 
 FAMILIES = {
@@ -543,6 +571,24 @@ def fam_c09(tier, seed):
                 sc["tags"].append("chunked-body-not-read-to-eof")
             scs.append(sc)
             k += 1
+    # large bodies of which little or nothing is read (the discard has a long way to go: 70 KB, 300 KB, 1.2 MB)
+    for tag, kw in (("cl70000", dict(framing="cl", body_len=70000)), ("cl300000", dict(framing="cl", body_len=300000)),
+                    ("ch150000", dict(framing="chunked", body_len=150000, chunks=[60000, 1, 89999])),
+                    ("cl1200000", dict(framing="cl", body_len=1_200_000))):
+        if tag == "cl1200000" and tier == "quick":
+            continue
+        for upto in (0, 1000, kw["body_len"] - 66000):
+            for fin in ("respond", "drop", "writer"):
+                if tier == "quick" and (upto, fin) not in ((0, "respond"), (1000, "drop"), (kw["body_len"] - 66000, "writer"), (0, "drop")):
+                    continue
+                first = Msg(method="POST", plan=_with_read(finishes[fin](), upto=upto, sizes=[8192]), **kw)
+                d, j, ln = conn([first, Msg(), Msg()], 0)
+                sc = scenario("C09-%04d" % k, "C09", [(d, j, ln)], _single_app(), horizon_ms=100)
+                sc["tags"] = ["boundary", "large-unread", tag, "upto%d" % upto, fin]
+                if kw["framing"] == "chunked":
+                    sc["tags"].append("chunked-body-not-read-to-eof")
+                scs.append(sc)
+                k += 1
     return scs
 
 def fam_c03(tier, seed):
@@ -558,7 +604,7 @@ def fam_c03(tier, seed):
                 continue
             if ptag == "one" and kw["body_len"] > (1100 if tier == "quick" else 5000):
                 continue
-            for follow, both, case in itertools.product(["none", "request", "garbage"], [False, True], ["std", "lower", "upper"]):
+            for follow, both, case in itertools.product(["none", "request", "garbage"], [False, True, "te-first"], ["std", "lower", "upper"]):
                 if both and kw["framing"] != "chunked":
                     continue
                 if tier == "quick" and rng.random() > 0.3:
@@ -566,12 +612,12 @@ def fam_c03(tier, seed):
                 names = {"std": ("Content-Length", "Transfer-Encoding"), "lower": ("content-length", "transfer-encoding"),
                          "upper": ("CONTENT-LENGTH", "TRANSFER-ENCODING")}[case]
                 first = Msg(method="POST", plan=_with_read(respond(200, 4), sizes=sizes, to_eof=True), cl_name=names[0],
-                            te_name=names[1], both=both, **kw)
+                            te_name=names[1], both=bool(both), te_first=(both == "te-first"), **kw)
                 msgs = [first] + ([Msg()] if follow == "request" else [])
                 trailing = b"\x01\x02 garbage bytes\r\n\r\n" if follow == "garbage" else b""
                 d, j, ln = conn(msgs, 0, trailing=trailing, trailing_cls=("r400" if trailing else None))
                 sc = scenario("C03-%04d" % k, "C03", [(d, j, ln)], _single_app(), horizon_ms=100)
-                sc["tags"] = ["framing", tag, "reads:" + ptag, "follow:" + follow, "names:" + case] + (["cl+te"] if both else [])
+                sc["tags"] = ["framing", tag, "reads:" + ptag, "follow:" + follow, "names:" + case] + (["cl+te"] if both else []) + (["te-first"] if both == "te-first" else [])
                 scs.append(sc)
                 k += 1
     # no body at all, and an upgrade request (body = rest of the connection)
@@ -688,6 +734,77 @@ def fam_c12(tier, seed):
                     sc["tags"] = ["persistence", "last-with-unsent-body", "v" + ver, "conn:%s" % ch, tag, "sent:%d" % sent]
                     scs.append(sc)
                     k += 1
+    scs += connloop_scenarios(tier, seed, "C12")
+    return scs
+
+# ------------------------------------------------------------------------------------------------
+# pipelines generated by TLC from mech/ConnLoop (specification -> implementation): every pipeline of 1..2 (quick) /
+# 1..3 (thorough) messages over version x Connection class and the rejected classes, with the reference outcome
+# of every message.  The concretiser spells the classes with seeded bytes and REFUSES to continue if the
+# judge-level description derived from the bytes (class, "ends the connection") disagrees with TLC's reference.
+
+_CON_SPELL = {
+    (False, False, False, False): [None],
+    (True, True, False, False): ["close", "Close", "CLOSE", "foo, close", "close, TE"],
+    (True, False, False, True): ["keep-alive", "Keep-Alive", "KEEP-ALIVE, foo"],
+    (True, False, True, False): ["upgrade", "Upgrade", "foo, UPGRADE"],
+    (True, False, False, False): ["foo", "TE", "x-y, z"],
+    (True, True, False, True): ["keep-alive, close", "Close, Keep-Alive"],
+}
+
+def connloop_scenarios(tier, seed, prop):
+    import props, json as _json, os as _os
+    import vlib as _vlib
+    rng = _rng("connloop/" + prop, seed)
+    gen = _os.path.join(_vlib.WORK, "connloop")
+    _os.makedirs(gen, exist_ok=True)
+    path = _os.path.join(gen, "outcomes.%s.%s.ndjson" % (prop, tier))
+    rc, out, wall = _vlib.tlc("connloop_gen_" + prop, "ConnLoop_gen.cfg", "MC_ConnLoop.tla", _os.path.join(_vlib.SPECS, "mc"), workers=1, timeout=900,
+                              env={"CL_OUT": path, "CL_TIER": tier})
+    if "No error has been found" not in out:
+        raise _vlib.ToolError("ConnLoop generation failed:\n" + out[-2000:])
+    recs = [_json.loads(l) for l in open(path)]
+    bad = _bad_heads()
+    by_cls = {}
+    for tag, cls, raw in bad:
+        by_cls.setdefault(cls, []).append((tag, raw))
+    scs = []
+    for r in recs:
+        rejecting = any(m["cls"] != "ok" for m in r["wire"])
+        if (prop == "C10") != rejecting:
+            continue
+        msgs = []
+        for m in r["wire"]:
+            if m["cls"] == "ok":
+                c = m["con"]
+                ch = rng.choice(_CON_SPELL[(c["present"], c["close"], c["upgrade"], c["keepalive"])])
+                kw = {}
+                if ch is not None and "upgrade" in ch.lower():
+                    kw = dict(framing="upgrade", body_len=0)
+                msgs.append(Msg(version=m["ver"], conn=ch, **kw))
+            else:
+                cls = {"bin": "close"}.get(m["cls"], m["cls"])
+                cands = by_cls[cls]
+                if cls == "r417":
+                    v10 = [x for x in cands if b"HTTP/1.0" in x[1]]
+                    v11 = [x for x in cands if b"HTTP/1.1" in x[1] and not x[0].startswith("expect-body-withheld") and x[0] != "expect-with-body"]
+                    cands = v10 if m["ver"] == "1.0" else v11
+                elif cls == "r505":
+                    cands = [x for x in cands if b"Content-Length" not in x[1] and b"chunked" not in x[1]]
+                tag, raw = rng.choice(cands)
+                msgs.append(Msg(cls=cls, why="C10", raw_head=raw))
+        d, j, ln = conn(msgs, 0)
+        # the judge-level description derived from the bytes must be the specification's reference outcome
+        for k, (jm, ref, wm) in enumerate(zip(j["msgs"], r["msgs"], r["wire"])):
+            want_cls = {"bin": "close"}.get(wm["cls"], wm["cls"])
+            if jm["cls"] != want_cls or (wm["cls"] == "ok" and ref["interpreted"] and bool(jm["last"]) != bool(ref["ends"])):
+                raise _vlib.ToolError("concretiser and mech/ConnLoop disagree on message %d of %s: %s vs %s" % (k, _json.dumps(r["wire"]), jm, ref))
+        if r["halfclose"]:
+            d["prog"] = [{"op": "send", "to": ln}, {"op": "half"}]
+        sc = scenario("%s-L%04d" % (prop, len(scs)), prop, [(d, j, ln)], _single_app(), horizon_ms=100)
+        sc["tags"] = ["connloop", "tlc-generated", "last:%d" % r["last"]] + (["half"] if r["halfclose"] else [])
+        sc["ref"] = {"delivered": [bool(x["delivered"]) for x in r["msgs"]], "status": [x["status"] for x in r["msgs"]], "closes": bool(r["closes"])}
+        scs.append(sc)
     return scs
 
 def _bad_heads():
@@ -752,6 +869,10 @@ def fam_c10(tier, seed):
                         sc["tags"].append("version-above-1.1")
                     scs.append(sc)
                     k += 1
+    for sc in connloop_scenarios(tier, seed, "C10"):
+        if any(m.get("cls") == "r505" for m in sc["judge"]["conns"][0]["msgs"]):
+            sc["tags"].append("version-above-1.1")
+        scs.append(sc)
     return scs
 
 def fam_c16(tier, seed):
